@@ -1257,7 +1257,11 @@ func modI(x, y Integer) (Integer, error) {
 	if y == 0 {
 		return 0, exceptionalValueZeroDivisor
 	}
-	return x - (Integer(math.Floor(float64(x)/float64(y))) * y), nil
+	r := x % y
+	if r != 0 && (r < 0) != (y < 0) {
+		r += y
+	}
+	return r, nil
 }
 
 func negI(x Integer) (Integer, error) {
